@@ -267,6 +267,11 @@ package server
 //@   at-return requires ret0 != nil && !ret0.IsWithdraw && peer.isIBGPPeer() && !ret0.IsLocal() ==> ret0.GetSource().AS != ret0.GetSource().LocalAS || ret0.GetSource().RouteReflectorClient || peer.isRouteReflectorClient()
 // (route-server clients included: the per-client best-path filter does the same for them on the ordinary path, but
 // secondary routes and add-path candidates reach filterpath unfiltered)
+// "from a non-client iBGP peer to another non-client" - and the converse for what was sent before: when the route that
+// is now best may not be sent to this non-client, but the route it replaces was one this peer had been sent by
+// reflection (it came from a route-reflector client other than this peer), that one is withdrawn - the peer must not
+// keep a route the reflector no longer uses
+//@   at-return requires ignore && path != nil && !path.IsWithdraw && old != nil && old.GetSource().RouteReflectorClient && old.GetSource().Address.String() != peer.ID() ==> ret0 != nil
 //@   at-return requires ret0 != nil && !ret0.IsWithdraw && isASLoop(peer, ret0) ==> ret0.IsLocal() && peer.allowAsPathLoopLocal()
 //@   at-return requires ret0 != nil && !ret0.IsWithdraw && peer.IsFamilyEnabled(bgp.RF_RTC_UC) && ret0.GetFamily() != bgp.RF_RTC_UC ==> peer.interestedIn(ret0)
 
